@@ -140,7 +140,7 @@ inductive Site
   | forCoerceNegative -- eval/stmt.rs coerce_loop_value: u64::try_from(negative) => TypeMismatch
   | forCoerceBool     -- eval/stmt.rs coerce_loop_value: `_ => TypeMismatch`
   | exitOutsideLoop   -- eval/stmt.rs Stmt::Exit / Stmt::Continue with loop_depth = 0
-  | programFlow       -- runtime/cycle.rs execute_program: body result other than Continue
+  | programFlow       -- runtime/cycle.rs execute_program: body result other than Continue / Return
   | callArgCount      -- eval/mod.rs prepare_bindings: positional call with the wrong number of arguments
   | callBindTarget    -- eval/mod.rs prepare_bindings: OUT / IN_OUT argument that is not an l-value
   | callUndefined     -- eval/expr/eval.rs Expr::Call: no function / instance of that name
@@ -361,9 +361,25 @@ inductive Expr
   | var (x : String)
   | un (op : UnOp) (e : Expr)
   | bin (op : BinOp) (l r : Expr)
+  | idx (a : String) (i : Expr)        -- stage S3: `array[index]` on a PROGRAM variable
+  | fld (s : String) (f : String)      -- stage S3: `struct.field` on a PROGRAM variable
   deriving DecidableEq, Repr, Inhabited
 
-abbrev Ctx := List (String × Ty)
+/-- Declaration of an aggregate PROGRAM variable (stage S3): a one-dimensional array of
+elementary elements or a flat struct. -/
+inductive AggDecl
+  | arr (lo hi : Int) (elem : Ty)
+  | str (tyName : String) (fields : List (String × Ty))
+  deriving Repr, Inhabited, DecidableEq
+
+/-- Typing context: declared type of every elementary slot, and the aggregate declarations. -/
+structure Ctx where
+  vars : List (String × Ty)
+  aggs : List (String × AggDecl) := []
+
+def Ctx.lookup (Γ : Ctx) (x : String) : Option Ty := Γ.vars.lookup x
+
+instance : Coe (List (String × Ty)) Ctx := ⟨fun l => { vars := l }⟩
 
 /-- Switches that turn the model of the code **as it is** (`Cfg.real`, all off) into the model of
 the code with the proposed repairs of the recorded findings.  Every theorem about the
@@ -376,10 +392,10 @@ structure Cfg where
   /-- repair: an untyped integer literal is lowered to the smallest-fit kind the checker gave it
   (`smallest_int_type_for_literal`) instead of DINT -/
   litSmallest : Bool := false
-  /-- repair: `RETURN` in a PROGRAM body ends the cycle normally (docs/specs/06 §6) -/
-  returnOk : Bool := false
   /-- repair: FOR bounds are converted exactly (no `ULINT as i64` wrap, no i64 counter) -/
   forExact : Bool := false
+  /-- repair: an array subscript is converted exactly (no `ULINT as i64` wrap in `index_to_i64`) -/
+  idxExact : Bool := false
 
 /-- The code as it is. -/
 def Cfg.real : Cfg := {}
@@ -423,7 +439,17 @@ structure Store where
   vars : Env
   globals : Env := []
   frames : List String := []
+  /-- Stage S3. The *shape* of every aggregate variable of the PROGRAM instance
+  (`ArrayValue.dimensions`, the field names of a `StructValue`); execution never changes it.
+  The elements themselves are kept **flattened** in `vars`: element `n` of array `a` is the slot
+  `elemName a n`, field `f` of struct `s` the slot `fldName s f` (the same rendering the harness
+  uses when it dumps the storage). `StExt` keeps the nested representation; the driver runs both
+  on every S3 case and requires them to agree. -/
+  aggs : List (String × AggDecl) := []
   deriving Repr, Inhabited, DecidableEq
+
+def elemName (a : String) (n : Int) : String := a ++ "[" ++ toString n ++ "]"
+def fldName (s f : String) : String := s ++ "." ++ f
 
 /-- `eval/expr/access.rs: read_name`: frame locals (none), instance variables, globals. -/
 def readName (σ : Store) (x : String) : M Val :=
@@ -440,6 +466,23 @@ def writeName (σ : Store) (x : String) (v : Val) : Store :=
   match lookup x σ.vars with
   | some _ => { σ with vars := insert x v σ.vars }
   | none => { σ with globals := insert x v σ.globals }
+
+/-- `eval/expr/access.rs: index_to_i64` — ULINT is cast with `as i64`. -/
+def indexToI64 (cfg : Cfg) : Val → M Int
+  | .i .ulint x => pure (if cfg.idxExact || decide (x ≤ i64Max) then x else x - 18446744073709551616)
+  | .i _ x => pure x
+  | .b _ => fault .TypeMismatch .indexNotInt
+
+/-- `array_offset` for one dimension: the bounds check; the result is the checked index. -/
+def arrayIndex (cfg : Cfg) (lo hi : Int) (iv : Val) : M Int := do
+  let n ← indexToI64 cfg iv
+  if n < lo ∨ n > hi then fault .IndexOutOfBounds .indexBounds else pure n
+
+/-- Read of an element / field slot (`elements.get(offset)`, `fields.get(name)`). -/
+def readSlot (σ : Store) (k : String) : M Val :=
+  match lookup k σ.vars with
+  | some v => pure v
+  | none => fault .TypeMismatch .indexBounds
 
 /-- `eval/expr/eval.rs: eval_expr` (AND/OR short-circuit on `Bool(false)` / `Bool(true)`). -/
 def evalExpr (cfg : Cfg) (σ : Store) : Expr → M Val
@@ -465,6 +508,28 @@ def evalExpr (cfg : Cfg) (σ : Store) : Expr → M Val
       let a ← evalExpr cfg σ l
       let b ← evalExpr cfg σ r
       applyBinary op a b
+  | .idx a i =>
+    -- `Expr::Index`: the array value first, then the index, then `read_indices`
+    match σ.aggs.lookup a with
+    | some (.arr lo hi _) =>
+      match evalExpr cfg σ i >>= arrayIndex cfg lo hi with
+      | .ok n => readSlot σ (elemName a n)
+      | .error st => .error st
+    | some (.str _ _) => fault .TypeMismatch .indexOfNonArray
+    | none => do
+      let _ ← readName σ a
+      fault .TypeMismatch .indexOfNonArray
+  | .fld s f =>
+    -- `read_field` on a struct value (field names compared as written: **case-sensitive**)
+    match σ.aggs.lookup s with
+    | some (.str _ fields) =>
+      match fields.lookup f with
+      | some _ => readSlot σ (fldName s f)
+      | none => fault .UndefinedField .fieldName
+    | some (.arr _ _ _) => fault .TypeMismatch .fieldOfNonStruct
+    | none => do
+      let _ ← readName σ s
+      fault .TypeMismatch .fieldOfNonStruct
 
 /-! ## Statements (`eval/stmt.rs`) -/
 
@@ -482,6 +547,8 @@ inductive Label
 mutual
 inductive Stmt
   | assign (x : String) (e : Expr)
+  | assignIdx (a : String) (i : Expr) (e : Expr)     -- stage S3: `a[i] := e;`
+  | assignFld (s : String) (f : String) (e : Expr)   -- stage S3: `s.f := e;`
   | ite (c : Expr) (t : Block) (elifs : Elifs) (el : Block)
   | case (sel : Expr) (brs : Branches) (el : Block)
   | for (x : String) (s e : Expr) (step : Option Expr) (body : Block)
@@ -574,6 +641,13 @@ def writeVal (cfg : Cfg) (σ : Store) (x : String) (v : Val) : Store × Option S
       | .ok v' => (writeName σ x v', none)
       | .error st => (σ, some st)
 
+/-- Write of an element / field slot (`write_indices`, `write_field`: the value is stored **as
+is**, like `Stmt::Assign`). -/
+def writeSlot (cfg : Cfg) (σ : Store) (k : String) (v : Val) : Store × Option Stop :=
+  match lookup k σ.vars with
+  | some _ => writeVal cfg σ k v
+  | none => (σ, some (.fault .TypeMismatch .indexBounds))
+
 /-- `harness/lower/stmt.rs: lower_for`: a missing `BY` clause is lowered to `Literal(Value::Int(1))`. -/
 def stepExpr (step : Option Expr) : Expr :=
   match step with
@@ -617,6 +691,41 @@ def execStmt (cfg : Cfg) : Nat → Nat → Store → Stmt → Res
         | (σ', none) => (σ', .ok .cont)
         | (σ', some st) => (σ', .error st)
       | .error st => (σ, .error st)
+    | .assignIdx a i e =>
+      -- value, then `read_name(a)`, the index, `write_indices`, `write_name`
+      match evalExpr cfg σ e with
+      | .error st => (σ, .error st)
+      | .ok v =>
+        match σ.aggs.lookup a with
+        | some (.arr lo hi _) =>
+          match evalExpr cfg σ i >>= arrayIndex cfg lo hi with
+          | .error st => (σ, .error st)
+          | .ok n =>
+            match writeSlot cfg σ (elemName a n) v with
+            | (σ', none) => (σ', .ok .cont)
+            | (σ', some st) => (σ', .error st)
+        | some (.str _ _) => (σ, fault .TypeMismatch .indexOfNonArray)
+        | none =>
+          match readName σ a with
+          | .error st => (σ, .error st)
+          | .ok _ => (σ, fault .TypeMismatch .indexOfNonArray)
+    | .assignFld s f e =>
+      match evalExpr cfg σ e with
+      | .error st => (σ, .error st)
+      | .ok v =>
+        match σ.aggs.lookup s with
+        | some (.str _ fields) =>
+          match fields.lookup f with
+          | some _ =>
+            match writeSlot cfg σ (fldName s f) v with
+            | (σ', none) => (σ', .ok .cont)
+            | (σ', some st) => (σ', .error st)
+          | none => (σ, fault .UndefinedField .fieldName)
+        | some (.arr _ _ _) => (σ, fault .TypeMismatch .fieldOfNonStruct)
+        | none =>
+          match readName σ s with
+          | .error st => (σ, .error st)
+          | .ok _ => (σ, fault .TypeMismatch .fieldOfNonStruct)
     | .ite c t elifs el =>
       match evalBool cfg σ c with
       | .ok true => execBlock cfg fuel ld σ t
@@ -722,6 +831,8 @@ structure VarDecl where
 structure Program where
   name : String := "P"
   decls : List VarDecl
+  /-- stage S3: array / struct variables -/
+  aggs : List (String × AggDecl) := []
   body : Block
 
 /-- `harness/coerce.rs: coerce_value_to_type` on the initialiser (range already checked by
@@ -731,10 +842,30 @@ def VarDecl.initVal (d : VarDecl) : Val :=
   | .bool => .b (d.init != 0)
   | .int k => .i k d.init
 
-def Program.ctx (p : Program) : Ctx := p.decls.map fun d => (d.name, d.ty)
+/-- The integers `lo, lo+1, …, hi`. -/
+def intRange (lo hi : Int) : List Int :=
+  (List.range (hi - lo + 1).toNat).map fun (k : Nat) => lo + (k : Int)
+
+/-- The flattened slots of one aggregate with their declared types. -/
+def AggDecl.slots (a : String) : AggDecl → List (String × Ty)
+  | .arr lo hi t => (intRange lo hi).map fun n => (elemName a n, t)
+  | .str _ fields => fields.map fun (f, t) => (fldName a f, t)
+
+def aggSlots (aggs : List (String × AggDecl)) : List (String × Ty) :=
+  aggs.flatMap fun (a, d) => d.slots a
+
+/-- Every storage slot of the PROGRAM instance with its declared type and initial value: the
+elementary variables, then the flattened aggregates (`default_value_for_type_id`: elements /
+fields get the TYPE default; declared initial values of struct fields are ignored). -/
+def Program.slots (p : Program) : List (String × Ty × Val) :=
+  (p.decls.map fun d => (d.name, d.ty, d.initVal)) ++
+  (aggSlots p.aggs).map fun (k, t) => (k, t, t.default)
+
+def Program.ctx (p : Program) : Ctx :=
+  { vars := p.slots.map fun (k, t, _) => (k, t), aggs := p.aggs }
 
 def Program.initStore (p : Program) : Store :=
-  { vars := p.decls.map fun d => (d.name, d.initVal) }
+  { vars := p.slots.map fun (k, _, v) => (k, v), aggs := p.aggs }
 
 /-- Runtime state across cycles: storage plus the fault latch (`FaultSubsystem.faulted`). -/
 structure RunState where
@@ -746,7 +877,7 @@ structure RunState where
 abbrev CycleOut := Option Stop
 
 /-- `runtime/cycle.rs: execute_cycle` → `execute_program` for the single (background) program:
-latch test, frame push, body, frame pop on every path, `Continue` required, fault latched. -/
+latch test, frame push, body, frame pop on every path, `Continue` or `Return` required, fault latched. -/
 def cycle (cfg : Cfg) (p : Program) (fuel : Nat) (st : RunState) : RunState × CycleOut :=
   if st.faulted then (st, some (.fault .ResourceFaulted .latched)) else
   let σ0 := { st.store with frames := p.name :: st.store.frames }
@@ -754,9 +885,7 @@ def cycle (cfg : Cfg) (p : Program) (fuel : Nat) (st : RunState) : RunState × C
   let σ2 := { σ1 with frames := σ1.frames.tail }
   match r with
   | .ok .cont => ({ store := σ2, faulted := false }, none)
-  | .ok .ret =>
-    if cfg.returnOk then ({ store := σ2, faulted := false }, none)
-    else ({ store := σ2, faulted := true }, some (.fault .InvalidControlFlow .programFlow))
+  | .ok .ret => ({ store := σ2, faulted := false }, none)   -- RETURN ends the program for this cycle (f3b5b76)
   | .ok _ => ({ store := σ2, faulted := true }, some (.fault .InvalidControlFlow .programFlow))
   | .error s => ({ store := σ2, faulted := true }, some s)
 
